@@ -131,7 +131,7 @@ theorem mem_placeRef (refs : List Ref) (ri : Option Nat) (ref x : Ref) (h : x âˆ
 
 /-- the selecting values StoreResponse records for a response and the request that fetched it -/
 def storedVary (r : Resp) : Str :=
-  if varyHasWildcard (joinWith [',', ' '] (Header.values (removeHopByHop r.header) sVary)) then ['*']
+  if (Header.values (removeHopByHop r.header) sVary).any varyHasWildcard then ['*']
   else joinWith [',', ' '] (Header.values (removeHopByHop r.header) sVary)
 
 def storedSelecting (cfg : Cfg) (reqH : Header) (r : Resp) : List (Str Ã— Str) :=
